@@ -15,17 +15,27 @@ if h:
         c.tie_broken("harness c20 crashed", out[-2000:])
     c.absorb_harness()
     if drv and rc == 0:
-        # K model processes: each gets every file (F lines) and every K-th prefix (C lines)
+        # K model processes.  A file of which every prefix is a case (ids d...) goes to all of
+        # them, each taking every K-th prefix; the other files go to one process each.
         K = 6 if c.tier == "quick" else 8
         shards = []
         for i in range(K):
             os.makedirs(os.path.join(c.work, "m%d" % i), exist_ok=True)
             shards.append(open(os.path.join(c.work, "m%d" % i, "cases.txt"), "w"))
-        n = 0
+        n, docs, cur = 0, 0, None
         for ln in open(os.path.join(c.work, "cases.txt"), errors="replace"):
-            if ln.split(" ", 2)[1:2] == ["F"]:
-                for f in shards:
-                    f.write(ln)
+            w = ln.split(" ", 2)
+            if w[1:2] == ["F"]:
+                if w[0].startswith("d"):
+                    cur = None
+                    for i, f in enumerate(shards):
+                        f.write(ln if i == 0 else w[0] + " f " + w[2])
+                else:
+                    cur = shards[docs % K]
+                    docs += 1
+                    cur.write(ln)
+            elif cur is not None:
+                cur.write(ln)
             else:
                 shards[n % K].write(ln)
                 n += 1
@@ -33,11 +43,11 @@ if h:
             f.close()
         script = ["for i in %s; do ( cd m$i && '%s' < cases.txt > model.obs ) & done" % (" ".join(str(i) for i in range(K)), drv),
                   "fail=0; for j in $(jobs -p); do wait $j || fail=1; done; exit $fail"]
-        rc, out = c.run(["bash", "-c", "\n".join(script)], timeout=3000)
+        rc, out = c.run(["bash", "-c", "\n".join(script)], timeout=3000, envx={"OCAMLRUNPARAM": "s=8M"})
         if rc != 0:
             c.tie_broken("model driver C20 failed", out[-2000:])
         else:
-            differ, tame_line = 0, ""
+            differ, tame = 0, [0, 0]
             with open(os.path.join(c.work, "model.obs"), "w") as mo, open(os.path.join(c.work, "ideal.txt"), "w") as io_:
                 for i in range(K):
                     d = os.path.join(c.work, "m%d" % i)
@@ -47,10 +57,13 @@ if h:
                     m = re.match(r"windowed and ideal search differ on (\d+) cases; (.*)$", lines[-1])
                     if m:
                         differ += int(m.group(1))
-                        tame_line = m.group(2)
+                        m2 = re.match(r"(\d+) of (\d+) files are tame", m.group(2))
+                        if m2:
+                            tame[0] += int(m2.group(1))
+                            tame[1] += int(m2.group(2))
                     os.remove(os.path.join(d, "cases.txt"))
                     os.remove(os.path.join(d, "model.obs"))
-                io_.write("windowed and ideal search differ on %d cases; %s\n" % (differ, tame_line))
+                io_.write("windowed and ideal search differ on %d cases; %d of %d files are tame\n" % (differ, tame[0], tame[1]))
             mism = c.compare_obs(os.path.join(c.work, "impl.obs"), os.path.join(c.work, "model.obs"), "scan")
             if mism:
                 c.tie_broken(
@@ -67,10 +80,10 @@ c.finish(
         "H-regexp: Go's regexp package implements markerRegexp / startRegexp as the hand-written matcher SeqScan.line_marker / start_here does",
         "H-parse (theorems): the object parser is suffix-stable on complete chunks, fails with Malformed or EOF on proper prefixes of a chunk and never returns another error class on in-memory data; exercised on the implementation for every cut. It is not instantiated with a concrete Coq parser: suffix stability for all dictionary/array/string/name/number/stream chunks is C01's object-syntax round trip (a second object-syntax model would be needed here), and for streams with an indirect /Length the outcome is not a function of the chunk alone (it depends on whether the length object lies in the file)",
         "theorems are about scanner.Find with its buffer windows (SeqScan.scan_windows) and hold for tame files whose header lies within the first 1024 bytes: at every line start no marker text followed by a word character, and no marker text longer than regexpOverlap = 64 bytes; tameness is evaluated for every generated file (windowed_vs_ideal_and_tameness)",
-        "writer-shaped files: no object streams; chunk interiors free of an EOL followed by a marker",
+        "theorems: files of the shape header, chunks `N G obj ... endobj`, tail, chunk interiors free of an EOL followed by a marker; the objects inside an object stream are not indirect objects of the file text (SequentialScan lists their container and records it in ObjectStreams, which the harness checks)",
     ],
     trusted=[
-        "hand-written Gallina model coq/C20/SeqScan.v of sequential.go / scanner.Find, tied by correspondence on every truncation offset",
+        "hand-written Gallina model coq/C20/SeqScan.v of sequential.go / scanner.Find, tied by correspondence on every truncation offset of every all-cuts file (multi-window files of 3-5 KB with every kind of top-level value included); the driver executes scan_windows_fast, proved equal to scan_windows (scan_windows_fast_is_scan_windows)",
         "Gen_Scan.v (scannerBufSize, regexpOverlap), Gen_Consts.v (maxXRefSize, maxGeneration) regenerated from the Go source on every run",
         "the outcome of scanner.ReadIndirectObject at each located candidate, of reading each xref stream object and of readTrailer at each trailer position is taken from the implementation (verif hooks), not modelled; which trailer is chosen (getTrailer) is modelled and proved",
     ],
